@@ -4,7 +4,7 @@
    decoded into exactly the messages sent; file URIs round-trip.
    Model: C16/Model.v; tie: harness/props/c16.py. *)
 From Coq Require Import ZArith String List Arith.
-From FV Require Import Base.Str C16.Model C16.Proofs.
+From FV Require Import Base.Str C16.Model C16.Proofs C16.Chunks.
 Local Open Scope N_scope.
 
 (* json.dumps(ensure_ascii) only produces ASCII, for every payload over the full code point range *)
@@ -47,6 +47,34 @@ Theorem chunk_independent_readline : forall cs,
   concat (snd (chunks_readline cs)) = snd (readline (concat cs)).
 Proof. exact chunks_readline_spec. Qed.
 Print Assumptions chunk_independent_readline.
+
+(* the whole of _receive over a chunked transport (C16/Chunks.v): every reader program
+   written against readline()/read(n)/read(None) is independent of the chunking ... *)
+Theorem reader_program_chunk_independent : forall A (p : prog A) cs,
+  fst (run_chunks p cs) = fst (run_flat p (concat cs)) /\
+  concat (snd (run_chunks p cs)) = snd (run_flat p (concat cs)).
+Proof. exact run_chunks_flat. Qed.
+Print Assumptions reader_program_chunk_independent.
+
+(* ... and _receive (first line, header loop, body read) is such a program: through any
+   chunking it yields the message (or error) of the unchunked stream and leaves the same bytes *)
+Theorem receive_chunk_independent : forall cs,
+  let f := S (List.length (snd (readline (concat cs)))) in
+  fst (run_chunks (receive_prog f) cs) = strip_rest (receive (concat cs)) /\
+  forall b rest, receive (concat cs) = RMsg b rest -> concat (snd (run_chunks (receive_prog f) cs)) = rest.
+Proof. exact receive_chunked. Qed.
+Print Assumptions receive_chunk_independent.
+
+(* non-vacuity: a Content-Type-first frame cut inside a header line, inside the two-byte
+   character of the body and followed by the start of the next frame *)
+Example C16_chunks_nonvacuous :
+  let s := frame TypeFirst [34; 195; 169; 34] ++ frame LenOnly [91; 93] in
+  let cs := [firstn 9 s; firstn 70 (skipn 9 s); skipn 79 s] in
+  concat cs = s /\ nth 2 cs [] = [169; 34] ++ frame LenOnly [91; 93] /\
+  fst (run_chunks (receive_prog (S (List.length s))) cs) = PMsg [34; 195; 169; 34] /\
+  concat (snd (run_chunks (receive_prog (S (List.length s))) cs)) = frame LenOnly [91; 93].
+Proof. vm_compute. repeat split; reflexivity. Qed.
+Print Assumptions C16_chunks_nonvacuous.
 
 (* percent-encoding: unquote (quote bytes) = bytes, hence for every path of code points *)
 Theorem uri_roundtrip_bytes : forall bs, Forall (fun b => b < 256) bs -> unquote_bytes (quote_bytes bs) = bs.
